@@ -8,7 +8,7 @@ from vf.core import Part, Violation, call
 from vf.props import common
 
 PROPERTY = "C07"
-RULE = ("Also: a leaf named in the assumption that is still part of the assumed model must carry exactly the given bounds (assume() docstring); sub-ranges are biased to the default ranges (0,1) and 16-bit. Hypothesis generates validated model DAG specs x assumption dictionaries D over any subset of leaf ids (int / (v,v) / "
+RULE = ("Part 'compensated': ENUMERATED holders (All, Any, AtLeast, AtMost, Xor, XNor; alone and under a parent) of a sub-proposition and an integer leaf that can make up for it; the sub-proposition assumed 0/1 in every value form, every total interpretation. Also: a leaf named in the assumption that is still part of the assumed model must carry exactly the given bounds (assume() docstring); sub-ranges are biased to the default ranges (0,1) and 16-bit. Hypothesis generates validated model DAG specs x assumption dictionaries D over any subset of leaf ids (int / (v,v) / "
         "sub-range tuple / Bounds) and sub-proposition ids (0/1 as int, tuple or Bounds) x interpretations I of the remaining "
         "leaves (total; sometimes partial). Oracles, all on freshly built objects: (a) metamorphic: "
         "build().assume(D).evaluate(I) == build().evaluate(D u I) as bounds; (b) when D u I is total and constant both equal the "
@@ -320,6 +320,34 @@ def symmetric_shapes(slice_i, n):
                        "il": [[0, 0, 0] if i == "t" else [1, env[i], env[i]] for i in ids], "dc": [], "extra": []}
 
 
+def compensated(tier):
+    """ENUMERATED: a node whose decided sub-proposition does NOT decide the node, because an integer leaf (or several leaves)
+    beside it can still make up for it - every connective class as the holder (All, Any, AtLeast, AtMost, Xor, XNor), the
+    sub-proposition assumed 0 / 1 in every value form, every total interpretation of the leaves"""
+    L = lambda i: {"k": "leaf", "id": i, "b": [0, 1]}
+    for tb in ((0, 2), (0, 3), (-1, 3)):
+        t = {"k": "leaf", "id": "t", "b": list(tb)}
+        for sub in ({"k": "Any", "id": "B", "c": [L("a"), L("b")]}, {"k": "AtMost", "v": 1, "id": "B", "c": [L("a"), L("b")]}):
+            holders = [{"k": "All", "id": "A", "c": [sub, t]}, {"k": "All", "id": "A", "c": [sub, t, L("c")]}, {"k": "Any", "id": "A", "c": [sub, t]},
+                       {"k": "AtLeast", "v": 2, "s": 1, "id": "A", "c": [sub, t, L("c")]}, {"k": "AtMost", "v": 1, "id": "A", "c": [sub, t]},
+                       {"k": "Xor", "id": "A", "c": [sub, t]}, {"k": "XNor", "id": "A", "c": [sub, t]}]
+            for h in holders:
+                for spec in (h, {"k": "All", "id": "TOP", "c": [h, L("z")]}):
+                    lv = oracle.spec_leaves(spec)
+                    ids = sorted(lv)
+                    m_ = build.model(spec)
+                    cids = sorted(oracle.compounds(m_))
+                    if "B" not in cids:
+                        continue
+                    which = cids.index("B")
+                    for val in (0, 1):
+                        for form in (0, 1, 2):
+                            for vals in itertools.product(*[range(lv[i][0], lv[i][1] + 1) for i in ids]):
+                                env = dict(zip(ids, vals))
+                                yield {"model": spec, "dl": [[0, 0, 0] for _ in ids], "il": [[1, env[i], env[i]] for i in ids],
+                                       "dc": [[which, val, form]], "extra": []}
+
+
 def empty(slice_i, n):
     """groups without sub-propositions inside every connective; nothing / one leaf / the empty group itself is assumed, every
     total interpretation of the rest"""
@@ -337,5 +365,5 @@ def empty(slice_i, n):
 
 
 def parts(tier):
-    return [Part("big_dicts", enumerate_cases=big_dicts, check=check, time_quick=200.0), Part("scale", strategy=lambda t: scale_assume_case(t), check=check, quick=(2, 40), thorough=(4, 500)), Part("empty0", enumerate_cases=(lambda t: empty(0, 1)), check=check, time_quick=120.0)] + [Part("symmetric_shapes%d" % i, enumerate_cases=(lambda t, i=i: symmetric_shapes(i, 2)), check=check, time_quick=120.0) for i in range(2)] + [Part("compound_siblings", strategy=lambda t: siblings_case(t), check=check, quick=(2, 250), thorough=(4, 3000))] + [Part("wide_nodes", strategy=lambda t: wide_assume_case(t), check=check, quick=(2, 150), thorough=(4, 2000))] + [Part("assume", strategy=lambda t: case_strategy(t), check=check, quick=(8, 300), thorough=(16, 2500)),
+    return [Part("compensated", enumerate_cases=compensated, check=check, time_quick=150.0), Part("big_dicts", enumerate_cases=big_dicts, check=check, time_quick=200.0), Part("scale", strategy=lambda t: scale_assume_case(t), check=check, quick=(2, 40), thorough=(4, 500)), Part("empty0", enumerate_cases=(lambda t: empty(0, 1)), check=check, time_quick=120.0)] + [Part("symmetric_shapes%d" % i, enumerate_cases=(lambda t, i=i: symmetric_shapes(i, 2)), check=check, time_quick=120.0) for i in range(2)] + [Part("compound_siblings", strategy=lambda t: siblings_case(t), check=check, quick=(2, 250), thorough=(4, 3000))] + [Part("wide_nodes", strategy=lambda t: wide_assume_case(t), check=check, quick=(2, 150), thorough=(4, 2000))] + [Part("assume", strategy=lambda t: case_strategy(t), check=check, quick=(8, 300), thorough=(16, 2500)),
             Part("symmetric", strategy=lambda t: symmetric_case(t), check=check, quick=(3, 300), thorough=(6, 2500))]
